@@ -137,6 +137,10 @@ class Check:
         if pid == 0:
             code = 0
             try:
+                os.setsid()       # own process group: the watchdog below can end the obligation with all its path processes
+            except OSError:
+                pass
+            try:
                 self.obligations, self.samples, self.known, self.modelgaps = [], [], [], []
                 self.executed, self.nqueries, self.solver_time, self.paths, self.discharged, self.reach, self.replayed = {}, 0, 0.0, 0, 0, 0, 0
                 ob = self.run_inner(name, prog, harness, **kw)
@@ -157,7 +161,29 @@ class Check:
                     pass
             sys.stdout.flush()
             os._exit(code)
-        os.waitpid(pid, 0)
+        # watchdog: an obligation that does not finish within its budget is reported inconclusive (never hangs the check)
+        budget = float(os.environ.get('VERIF_OB_TIMEOUT', '0') or 0) or (2400.0 if self.thorough else 1200.0)
+        t_end = time.time() + budget
+        timed_out = False
+        while True:
+            done, _ = os.waitpid(pid, os.WNOHANG)
+            if done:
+                break
+            if time.time() > t_end:
+                timed_out = True
+                try:
+                    os.killpg(pid, 9)
+                except OSError:
+                    pass
+                try:
+                    os.waitpid(pid, 0)
+                except OSError:
+                    pass
+                break
+            time.sleep(0.2)
+        if timed_out:
+            with open(path, 'wb') as f:
+                pickle.dump({'error': 'obligation exceeded its time budget of %d s (stopped by the watchdog)' % budget}, f)
         ob = Obligation(self, name, kw.get('bounds') or {})
         ob.xp = type('XP', (), {'unsupported': {}, 'fork_sites': {}, 'schema': None})()
         try:
